@@ -151,7 +151,9 @@ func (r *runner) bad(key, f string, a ...interface{}) *mon.Result {
 
 // opFailed judges an error of an operation that had to succeed. Only if every byte the device
 // generated (minus what the model deliberately withholds) was delivered is it the library's doing.
-func (r *runner) opFailed(where string, err error) *mon.Result { return r.opFailedAt(where, where, err) }
+func (r *runner) opFailed(where string, err error) *mon.Result {
+	return r.opFailedAt(where, where, err)
+}
 
 // opFailedAt: keyWhere goes into the class key, where into the complaint.
 func (r *runner) opFailedAt(keyWhere, where string, err error) *mon.Result {
